@@ -141,6 +141,15 @@ CLAIMED = {
          "is NOT decided.",
     technique="who-may-write ownership of the tree containers + CFG dominance/cycle queries on the recording sites + def-use of store keys/values",
     ref="4/C03"),
+ "C04": dict(
+    text="Thin - necessary conditions of the round trip, not the round trip: S1 the serializer has a branch for every value shape the recorder "
+         "stores and decides list/command shapes before the string branch; S2 recorded values reach target.write without a lossy transformer "
+         "(strip/replace/lower/slice...), except for list items that are not already complete quoted strings; S3 every constant fragment the "
+         "serializer writes is tokenised by the automata of the CURRENT lexer rules into the punctuation it stands for, and every punctuation kind "
+         "is produced by some fragment; S4 a text: block is unconditionally followed by a newline; S5 same args_definition, every present slot, "
+         "every child, separators only between consecutive tests. Tree equality after re-parse and idempotence for all values are NOT decided.",
+    technique="AST/CFG shape analysis of the serializer + def-use of values to write sinks + static tokenisation of emitted constants with the lexer DFAs",
+    ref="4/C04"),
 }
 NA = {}
 
